@@ -70,6 +70,9 @@ type Op struct {
 	Tag string `json:"tag,omitempty"`
 	Fmt int16  `json:"fmt,omitempty"`
 	N   int    `json:"n,omitempty"`
+	// Ms (sleep, cancel): simulated milliseconds the handler lets pass on the
+	// bubble's clock (for cancel: right after cancelling the session context)
+	Ms int `json:"ms,omitempty"`
 	// Reuse (row): the handler keeps one []any of pointers to its own variables
 	// for consecutive rows, assigns the variables and hands the same slice to Row
 	Reuse bool `json:"reuse,omitempty"`
@@ -616,9 +619,14 @@ func (rt *Runtime) runStmt(ctx context.Context, key string, idx int, sp *StmtPro
 	c.checkRetained("stmt")
 	rt.inspectCtx(c, ctx, "stmt")
 	c.inHandler++
+	panicking := false
 	defer func() {
 		c.inHandler--
-		c.rec("stmt-end", fmt.Sprintf("%s#%d %s", key, idx, errClass(ret)))
+		if panicking {
+			c.rec("stmt-end", fmt.Sprintf("%s#%d panic", key, idx))
+		} else {
+			c.rec("stmt-end", fmt.Sprintf("%s#%d %s", key, idx, errClass(ret)))
+		}
 		c.cmdCtx = ctx
 	}()
 	var cr *wire.CopyReader
@@ -771,10 +779,32 @@ func (rt *Runtime) runStmt(ctx context.Context, key string, idx int, sp *StmtPro
 		case "ctx":
 			rt.inspectCtx(c, ctx, "op")
 		case "cancel":
+			// (a handler that lets time pass after the cancellation announces its
+			// sleep before it cancels: whoever the cancellation wakes up already
+			// sees that somebody is asleep on the simulated clock)
+			d := time.Duration(op.Ms) * time.Millisecond
+			if d > 0 {
+				simSleepUntil.Store(time.Now().Add(d).UnixNano())
+				simSleepers.Add(1)
+			}
 			if c.cancelSession != nil {
 				c.cancelSession()
 			}
 			c.rec("op", fmt.Sprintf("%d cancel", oi))
+			if d > 0 {
+				time.Sleep(d)
+				simSleepers.Add(-1)
+			}
+		case "panic":
+			// a statement function that panics (generated only for statements that
+			// are executed through the extended protocol, where the library
+			// documents - by recovering - that this is a failed Execute)
+			c.rec("op", fmt.Sprintf("%d panic", oi))
+			panicking = true
+			panic("verif: the statement function panics")
+		case "sleep":
+			bubbleSleep(time.Duration(op.Ms) * time.Millisecond)
+			c.rec("op", fmt.Sprintf("%d sleep", oi))
 		case "yield":
 			rt.K.Yield(c.task, "op.yield")
 			c.rec("op", fmt.Sprintf("%d yield", oi))
